@@ -310,6 +310,24 @@ def c10(ctx):
                   exhaustive=True)
 
 
+# ----------------------------------------------------------------------------- C12
+@prop("C12")
+def c12(ctx):
+    spell = ["int64", "int", "uint16"] if ctx.quick() else ["int64", "int", "int16", "int32", "uint", "uint16", "uint32", "uint64"]
+    cases = gen(ctx, "Gen_C12", cfgtext(invariants=["Emit"], constants=dict(Spellings=tlaset(spell))), timeout=3000, heap="8g")
+    events = harness(ctx, ["exec", "memflow"], cases)
+    rejects = judge(ctx, "Trace_C12", events)
+    return report(ctx, events, rejects,
+                  nontrivial=lambda e: e["obs"][0]["res"] == "ok" if e["side"] == "producer" else e["obs"][2]["res"] == "ok",
+                  key=lambda e: json.dumps([e["side"], e["P"], e["U"], e.get("rawP"), e.get("rawU"), e.get("hp"), e.get("n")]),
+                  rule="TLC enumerates the producer grid (base header entries 1/3/4/99/258/259/260/\"x\" in either bucket under several Go spellings, caller-supplied "
+                       "raw buckets, hash algorithms SHA-256/384/512 and unknown ids, digest lengths 0/size-1/size/size+1, preimage content type absent/uint/tstr/"
+                       "wrongly typed, location) and the consumer grid (validly signed COSE_Sign1 with every combination of governed labels, value types and "
+                       "digest lengths in either bucket); SignHashEnvelope/VerifyHashEnvelope run on the real API; TLC judges the produced bytes, the returned "
+                       "values, the caller's maps and every acceptance; non-trivial = an envelope was produced / a signed message reached VerifyHashEnvelope",
+                  exhaustive=True)
+
+
 def setup():
     ctx = Ctx("setup", "quick", 1)
     try:
